@@ -175,7 +175,11 @@ func parentMain(name string, args []string) {
 			for s := range work {
 				lo := s.lo
 				for lo < s.hi {
+					t0 := time.Now()
 					res := runWorker(name, args, lo, s.hi, false)
+					if os.Getenv("C02_SLOW") != "" {
+						fmt.Fprintf(os.Stderr, "span [%d,%d) ran to %d in %v died=%d %s\n", lo, s.hi, res.died, time.Since(t0), res.died, res.class)
+					}
 					mu.Lock()
 					tot.Ran += res.sum.Ran
 					for k, v := range res.sum.Counts {
